@@ -326,33 +326,55 @@ func runNLSegment(col *trace.Collector, rng *rand.Rand, steps int, idx int) *nlS
 
 		return true
 	}
-	waitOwnAndRebuild := func(from int) bool {
-		_, ok1 := col.WaitFor(from, 20*time.Second, func(r verifhook.Record) bool {
+	waitOwnAndRebuild := func(from int, d time.Duration) bool {
+		_, ok1 := col.WaitFor(from, d, func(r verifhook.Record) bool {
 			s, _ := r["susp"].(uint64)
 
 			return r["n"] == vn && r["ev"] == "mk_update" && s == 0
 		})
-		_, ok2 := col.WaitFor(from, 20*time.Second, evForNode(vn, "rebuild"))
+		_, ok2 := col.WaitFor(from, d, evForNode(vn, "rebuild"))
 
 		return ok1 && ok2
 	}
-	// pre-sentinel: forces one own update and one rebuild; everything requested during set-up is flushed with it
+	// settle: a sentinel update from a fresh origin requests one own update and one rebuild; once BOTH have been
+	// seen after the sentinel's barrier, everything requested earlier has been flushed too. The run that serves
+	// the request can, rarely, start between the request and the barrier; then nothing follows the barrier and
+	// another sentinel is sent (each sentinel is an ordinary step of the trace).
+	sentinels := 0
+	settle := func(tag string) (int, bool) {
+		for try := 0; try < 20; try++ {
+			l := live()
+			if len(l) == 0 {
+				return 0, false
+			}
+			sentinels++
+			if !doStep(l[0], nlUpdate{Node: fmt.Sprintf("%s%d", tag, sentinels), ID: freshID(), Epoch: 1, Seq: 1, Conns: map[string]float64{"p1": 1}, Fwd: l[0]}) {
+				return 0, false
+			}
+			at := barrierIdx
+			if waitOwnAndRebuild(at, 1500*time.Millisecond) {
+				return at, true
+			}
+		}
+		seg.inconcl = "no own update / rebuild after 20 sentinels (" + tag + ")"
+
+		return 0, false
+	}
 	{
-		l := live()
-		if len(l) == 0 {
+		if len(live()) == 0 {
 			seg.inconcl = "no live session after set-up"
 
 			return seg
 		}
-		if !doStep(l[0], nlUpdate{Node: "zz0", ID: freshID(), Epoch: 1, Seq: 1, Conns: map[string]float64{"p1": 1}, Fwd: l[0]}) {
-			return seg
-		}
-		baseline = barrierIdx
-		if !waitOwnAndRebuild(baseline) {
-			seg.inconcl = "no own update / rebuild after the pre-sentinel"
+		at, ok := settle("zza")
+		if !ok {
+			if seg.inconcl == "" {
+				seg.inconcl = "set-up did not settle"
+			}
 
 			return seg
 		}
+		baseline = at
 	}
 	for s := 0; s < steps; s++ {
 		select {
@@ -436,23 +458,19 @@ func runNLSegment(col *trace.Collector, rng *rand.Rand, steps int, idx int) *nlS
 			return seg
 		}
 	}
-	// closing sentinel
+	// closing sentinel(s)
 	select {
 	case <-n.N.NetceptorDone():
 		return seg
 	default:
 	}
-	l := live()
-	if len(l) == 0 {
+	if len(live()) == 0 {
 		return seg
 	}
-	i0 := len(seg.lines)
-	if !doStep(l[0], nlUpdate{Node: "zz1", ID: freshID(), Epoch: 1, Seq: 1, Conns: map[string]float64{"p2": 1}, Fwd: l[0]}) {
-		return seg
-	}
-	_ = i0
-	if !waitOwnAndRebuild(barrierIdx) {
-		seg.inconcl = "no own update / rebuild after the closing sentinel"
+	if _, ok := settle("zzb"); !ok {
+		if seg.inconcl == "" { // the last session went away meanwhile: no end line for this segment
+			return seg
+		}
 
 		return seg
 	}
